@@ -26,6 +26,7 @@ struct RunStats {
     long posts_configured = 0, posts_fired = 0, throws_configured = 0, throws_fired = 0;
     long copies = 0, assigns = 0, moves = 0, saveloads = 0, stopstarts = 0, clears = 0, destroys = 0;
     long diverged = 0, invariant_violations = 0;
+    long ids_known = 0;                         // clean runs that showed finding KF-3 (state-id numbering of the back-ends)
     long multi_candidate_dispatches = 0, nested_dispatches = 0, deferred_seen = 0, completion_seen = 0, blocked_seen = 0;
     long exceptions_caught = 0, no_transitions = 0, entries = 0, exits = 0, guards = 0, actions = 0;
     std::map<uint64_t, uint32_t> trace_hashes;  // distinct whole-run traces -> feature mask of the run
@@ -35,6 +36,8 @@ struct RunStats {
     std::vector<std::string> samples;           // a few plans with their traces, written out
 };
 
+// the description with the state ids as the back-end of a variant numbers them (dialect 0 = back / back11)
+const Desc& view_of(const Desc& d, int dialect);
 Outcome evaluate(const Desc& d, const Variant& v, const Profile& pf, const Plan& plan, RunStats* st);
 // differential oracle (no model in the loop): same plan on several variants, normalised traces compared
 // against the first one.  mode: "backend" (C13), "policy" (C19 outside transitions), "frontend" (C14)
